@@ -646,7 +646,7 @@ func runC11Conformance(c *Ctx, w *bWorld) {
 	rec(nil)
 	var validated int64
 	for _, h := range histories {
-		m, err := larking.NewMux(larking.FilesOption(w.reg))
+		m, err := larking.NewMux(larking.FilesOption(w.reg), c11Config())
 		if err != nil {
 			panic(err)
 		}
